@@ -210,10 +210,11 @@ impl Literal {
                             match (fields1, variant2) {
                                 (VariantLiteral::Unit, Variant::Unit(_)) => return true,
                                 (VariantLiteral::Tuple(fields1), Variant::Tuple(_, fields2)) => {
-                                    return fields1
-                                        .iter()
-                                        .zip(fields2.iter())
-                                        .all(|(f, ty)| f.is_of_type(checked, ty));
+                                    return fields1.len() == fields2.len()
+                                        && fields1
+                                            .iter()
+                                            .zip(fields2.iter())
+                                            .all(|(f, ty)| f.is_of_type(checked, ty));
                                 }
                                 _ => return false,
                             }
@@ -223,7 +224,12 @@ impl Literal {
                 false
             }
             (Literal::Range(min, max, num_ty), Type::Array(elem_ty, size)) => {
-                elem_ty.as_ref() == &Type::Unsigned(*num_ty) && max - min == *size as u64
+                elem_ty.as_ref() == &Type::Unsigned(*num_ty)
+                    && max >= min
+                    && max - min == *size as u64
+                    && num_ty
+                        .max()
+                        .is_none_or(|ty_max| max == min || max - 1 <= ty_max)
             }
             _ => false,
         }
